@@ -429,8 +429,37 @@ fn constval_j<'tcx>(cx: &mut Cx<'tcx>, val: mir::ConstValue, t: Ty<'tcx>) -> Vec
         mir::ConstValue::ZeroSized => {
             v.push(("zst", J::Bool(true)));
         }
-        mir::ConstValue::Indirect { .. } => {
+        mir::ConstValue::Indirect { alloc_id, offset } => {
             v.push(("indirect", J::Bool(true)));
+            // a fat pointer (&[u8] / &str) stored in memory: follow the provenance of the data pointer
+            if let ty::Ref(_, inner, _) = t.kind() {
+                let is_str = inner.is_str();
+                let is_bytes = matches!(inner.kind(), ty::Slice(e) if *e == tcx.types.u8);
+                if is_str || is_bytes {
+                    if let Some(mir::interpret::GlobalAlloc::Memory(a)) = tcx.try_get_global_alloc(alloc_id) {
+                        let a = a.inner();
+                        let off = offset.bytes() as usize;
+                        if a.len() >= off + 16 {
+                            let raw = a.inspect_with_uninit_and_ptr_outside_interpreter(off..off + 16);
+                            let mut len: u64 = 0;
+                            for i in 0..8 {
+                                len |= (raw[8 + i] as u64) << (8 * i);
+                            }
+                            let mut poff: u64 = 0;
+                            for i in 0..8 {
+                                poff |= (raw[i] as u64) << (8 * i);
+                            }
+                            for (o, prov) in a.provenance().ptrs().iter() {
+                                if o.bytes() as usize == off {
+                                    if let Some(b) = read_alloc_bytes(tcx, prov.alloc_id(), poff, len) {
+                                        v.push((if is_str { "str" } else { "bytes" }, bytes_j(&b)));
+                                    }
+                                }
+                            }
+                        }
+                    }
+                }
+            }
         }
     }
     v
